@@ -466,6 +466,56 @@ def hash_compare_shape(chk, src, fn, rule='signature-hash-compare'):
         chk.violation(rule, inst, F.where(cm[0]), '; '.join(det), key='%s %s' % (rule, fn))
 
 
+def server_choice_was_offered(chk):
+    """RFC 5246 7.4.1.3: the cipher suite in the ServerHello is one of those the client listed.  The client must check the chosen suite
+    against the list it *sent* (the configured suites, eng.suites_buf / suites_num), not merely against what the library implements:
+    a suite the application removed (3DES, RSA key exchange, ...) could otherwise be imposed by the server.  Bytecode rule: in the word
+    that reads the ServerHello, the test guarding fail(BR_ERR_BAD_CIPHER_SUITE) right after the suite is read calls a word that
+    (transitively) reads the configured suite list."""
+    R = 'server-choice-was-offered'
+    P = t0.Program('hs_client')
+    cv = build.const_values(['BR_ERR_BAD_CIPHER_SUITE'])
+    offs = set()
+    for f in ('eng.suites_buf', 'eng.suites_num'):
+        offs.add(P.layouts.field(P.ctxname, f)[0])
+
+    def val(x):
+        return x.arg if x.kind == 'const' else P.const_word_value(x.arg) if x.kind == 'call' else None
+
+    def reads_list(w, seen=None):
+        seen = seen if seen is not None else set()
+        if w in seen or w not in P.words:
+            return False
+        seen.add(w)
+        for x in P.words[w].ins.values():
+            if val(x) in offs:
+                return True
+            if x.kind == 'call' and P.const_word_value(x.arg) is None and reads_list(x.arg, seen):
+                return True
+        return False
+    sites = []
+    for w, W in P.words.items():
+        l = list(W.ins.values())
+        for k, i in enumerate(l):
+            if val(i) == cv['BR_ERR_BAD_CIPHER_SUITE'] and k + 1 < len(l) and l[k + 1].kind == 'native' and l[k + 1].name == 'fail':
+                # the guard: ... call(checker) [call(0<)] jumpif(not) <const fail>
+                j = k - 1
+                if j >= 0 and l[j].kind in ('jumpif', 'jumpifnot'):
+                    calls = [x for x in l[max(0, j - 3):j] if x.kind == 'call' and P.const_word_value(x.arg) is None]
+                    sites.append((w, i.pc, calls))
+    # the ServerHello word: the first such site that follows a 16-bit read of the suite (dup before the checker)
+    first = [s_ for s_ in sites if s_[2]]
+    if not first:
+        raise AnalysisBroken('hs_client: no guarded fail(BR_ERR_BAD_CIPHER_SUITE) found')
+    w, pc, calls = min(first, key=lambda t: t[1])
+    inst = 'hs_client W%d pc %d: the suite chosen by the server is looked up in the configured (offered) suite list' % (w, pc)
+    if any(reads_list(c.arg) for c in calls):
+        chk.ok(R, inst, P.src)
+    else:
+        chk.violation(R, inst, P.src, 'none of the words called by the guard (%s) reads eng.suites_buf / suites_num: a suite that was not offered is accepted if the '
+                      'library merely implements it' % [c.arg for c in calls], key=R)
+
+
 def fallback_scsv(chk):
     """RFC 7507 section 3: if the ClientHello lists TLS_FALLBACK_SCSV (0x5600) and the highest version the server supports is higher
     than ClientHello.client_version, the server MUST answer with a fatal inappropriate_fallback alert (86) - unless the client
@@ -619,6 +669,7 @@ def run(tier):
     hash_compare_shape(chk, 'src/ssl/ssl_hs_client.c', 'verify_SKE_sig')
     hash_compare_shape(chk, 'src/ssl/ssl_hs_server.c', 'verify_CV_sig')
     chk.floor('rule instances', len(chk.obls), 30)
+    server_choice_was_offered(chk)
     from .c10 import pkcs1_v15_template
     pkcs1_v15_template(chk)           # ServerKeyExchange / CertificateVerify RSA signatures: exact EMSA-PKCS1-v1_5 template
     from .c01 import transcript_follows_wire
